@@ -181,6 +181,28 @@ func RunOpts(srcDir, dstDir string, rewrite bool) (*Descriptor, error) {
 			pkgMut[dir] = map[string]bool{}
 		}
 		for _, imp := range f.Imports {
+			if strings.Trim(imp.Path.Value, "`\"") == "time" && (imp.Name == nil || (imp.Name.Name != "." && imp.Name.Name != "_")) {
+				tn := "time"
+				if imp.Name != nil {
+					tn = imp.Name.Name
+				}
+				ast.Inspect(f, func(n ast.Node) bool {
+					if sel, ok := n.(*ast.SelectorExpr); ok {
+						if id, ok := sel.X.(*ast.Ident); ok && id.Name == tn && id.Obj == nil {
+							switch sel.Sel.Name {
+							case "After", "AfterFunc", "NewTimer", "NewTicker", "Tick":
+								// timers and tickers run on the real clock and hand out real times: a tree that uses them
+								// keeps the real clock everywhere (two clocks in one tree would run against each other)
+								if clockSeam {
+									d.ClockNote = fmt.Sprintf("%s:%d uses time.%s: the clock seam is off, the tree reads the real clock", rel, fset.Position(sel.Pos()).Line, sel.Sel.Name)
+								}
+								clockSeam = false
+							}
+						}
+					}
+					return true
+				})
+			}
 			if strings.Trim(imp.Path.Value, "`\"") == "time" && imp.Name != nil && imp.Name.Name == "." {
 				// a dot import hides which identifiers are the clock: no file of the module is switched to the
 				// simulated clock then (a tree that reads two clocks would see time run backwards)
